@@ -164,7 +164,8 @@ Qed.
     (roll_av: [b * np.ones(k)] is k copies of b; interp_left: [min(x0) >= x[0]] iff no query is below x[0]).
     The guards [v <> []] / [xs <> []] / [qs <> []] are where Python raises IndexError / ValueError ([values[-1]], [err[-1]],
     [x[0]], [min([])]); [hd n0] / [last _ n0] are read totally there.
-    What is NOT proved here and stays with the trusted reading / the correspondence of the run: interp2d (not translated);
+    What is NOT proved here and stays with the trusted reading / the correspondence of the run: (interp2d has its own tie
+    at the end of this file: gen/Gen_interp2d.v);
     the numpy semantics of each primitive as written in lib/NpHelpers.v (in particular np.searchsorted as a leading-prefix
     count, valid on sorted nodes); agreement of the shapes of element-wise operands in general (map2 truncates where
     numpy would raise; for the two slice assignments and the operations on slices the agreement IS proved:
@@ -218,3 +219,41 @@ Theorem C20_source_shapes_agree : forall (steps : nat) (m : rmode) (f g : nat ->
    length (firstn (length (map f (seq 0 (length v))) - 1) (map f (seq 0 (length v)))) = (length v - 1)%nat /\
    (length (map (fun _ : R => 1) v) - 1 = length v - 1)%nat).
 Proof. exact P_gen_helpers.gen_shapes_agree. Qed.
+
+(** ** Source-text tie for interp2d (translator/py2coq_interp2d.py -> gen/Gen_interp2d.v, proofs in P_gen_interp2d).
+    gen/Gen_interp2d.v is RE-GENERATED on every run from eqsig/fns/generic.py: interp2d (same grammar as the helpers, plus
+    the readings of lib/NpInterp.v: the column broadcast [x[:, np.newaxis] - xf], np.argmin(axis=1), np.where on index
+    arrays, np.clip with one bound, row selection [f[ind]], [s[:, np.newaxis] * rows]).  The theorems say that the model
+    [interp2d] the theorems at the top of this file are about IS what the source text says, for ALL inputs, with eps the
+    literal 1e-10 of the source read as the decimal 1/10^10: the nearest node [argmin |x - xf|], the bracketing test
+    [xf[ind] > x] and both selections [ind - 1, ind] / [ind, ind + 1], the clips at [0] and [len(xf) - 1], which rows and
+    nodes are taken, [denom = a1 - a0], its clip at the literal, the weight guard [denom > 0] with value 1 otherwise,
+    [s1 = 1 - s0] and the combination [s1 * f0 + s0 * f1].  A changed operand / index / literal / comparison / clip bound
+    changes the generated term and these proofs stop checking; a renamed temporary gives the same text.
+    NOT proved here (trusted reading / correspondence): the numpy semantics of each primitive as written in
+    lib/NpInterp.v and lib/NpHelpers.v, shapes that do not agree (map2 truncates where numpy raises), an empty xf
+    (np.argmin raises ValueError; the model's argmin is 0), an index beyond len(f) (nth's default), binary64 rounding (the
+    float 1e-10 is not exactly 1/10^10; the correspondence runs the model at the float's exact value). *)
+From EQ Require Import lib.NpInterp gen.Gen_interp2d proofs.P_gen_interp2d.
+
+Theorem C20_interp2d_is_source : forall (x xf : list R) (f : list (list R)),
+  gen_interp2d x xf f = interp2d (1 / 10000000000) x xf f.
+Proof. exact P_gen_interp2d.gen_interp2d_eq_R. Qed.
+(** the literal is positive, so C20_interp2d_is_linear_clamped / C20_interp2d_at_nodes apply to the translated source *)
+Theorem C20_interp2d_source_eps_positive : 0 < 1 / 10000000000.
+Proof. exact P_gen_interp2d.src_eps_pos. Qed.
+(** the same for every number type in which the int literals 0 and 1, coerced to floats, are n0 and n1 (no arithmetic
+    law is used), in particular for the Q instance the correspondence executes *)
+Theorem C20_interp2d_is_source_generic : forall (T : Type) (ops : NumOps T), nofZ 0 = n0 -> nofZ 1 = n1 ->
+  forall (x xf : list T) (f : list (list T)), gen_interp2d x xf f = interp2d (ndiv n1 (nofZ 10000000000)) x xf f.
+Proof. exact (@P_gen_interp2d.gen_interp2d_eq). Qed.
+Theorem C20_interp2d_is_source_Q : forall (x xf : list QArith_base.Q) (f : list (list QArith_base.Q)),
+  gen_interp2d x xf f = interp2d (QArith_base.Qmake 1 10000000000) x xf f.
+Proof. exact P_gen_interp2d.gen_interp2d_eq_Q. Qed.
+(** the index arrays the source subscripts with are never negative (no wrap-around in xf[ind], f[ind0], f[ind1]) *)
+Theorem C20_interp2d_indices_nonneg : forall (m : list (list R)) (c : list bool) (k : list Z) (n : nat), (1 <= n)%nat ->
+  Forall (fun i => (0 <= i)%Z) (np_argmin_rows m) /\
+  Forall (fun i => (0 <= i)%Z) (np_clip_lo_z 0 k) /\
+  Forall (fun i => (0 <= i)%Z)
+    (np_clip_hi_z (Z.sub (Z.of_nat n) 1) (np_where c (np_argmin_rows m) (map (fun i => Z.add i 1) (np_argmin_rows m)))).
+Proof. exact (@P_gen_interp2d.gen_interp2d_indices_nonneg R _). Qed.
